@@ -169,6 +169,19 @@ pub fn operand(r: &mut Rng) -> u128 {
     }
 }
 
+/// Operands at the bottom of the exponent range whose scaled coefficient C·10^(e - emin) sits on a 64-bit word
+/// boundary (low k words zero, or one less): the normal/subnormal tests compare that product with 10^33.
+pub fn scaled_boundary_operand(r: &mut Rng) -> u128 {
+    let eb = r.below(41) as u32;
+    let k = 1 + r.below(2) as u32;
+    let j = (64 * k).saturating_sub(eb);
+    let mut m = 1 + r.below(1 << 12) as u128;
+    while j < 128 && (m << j) >= P34 && m > 1 { m >>= 1; }
+    let c = if j < 113 { m << j } else { 1u128 << 112 };
+    let c = match r.below(4) { 0 => c.saturating_sub(1), 1 => c + 1, _ => c }.clamp(1, P34 - 1);
+    enc(r.chance(1, 2), c, EMIN + eb as i32)
+}
+
 pub fn finite_or_zero(r: &mut Rng) -> u128 { if r.chance(1, 15) { zero(r) } else { finite(r) } }
 
 fn decode_fin(b: u128) -> (bool, u128, i32) {
@@ -320,7 +333,8 @@ pub fn sqrt_operand(r: &mut Rng) -> u128 {
 }
 
 pub fn fma_triple(r: &mut Rng) -> (u128, u128, u128) {
-    match r.below(10) {
+    match r.below(13) {
+        10 | 11 | 12 => fma_tail_triple(r),
         0 => (operand(r), operand(r), operand(r)),
         1 => { let (x, y) = mul_pair(r); (x, y, zero(r)) }
         2 => { let x = finite(r); (x, enc(false, 1, 0), partner(r, x)) }
@@ -393,6 +407,51 @@ pub fn int_boundary_operand(r: &mut Rng) -> u128 {
     }
 }
 
+/// A coefficient whose last `k` digits sit at a chosen distance from the half-way point of the digit above them:
+/// kept·10^k + 5·10^(k-1) + δ with δ ∈ {0, ±1, ±(small), random}; also exact multiples (δ = -half) and 10^k - 1 tails.
+/// Returns (coefficient, k).  This is where rounding decisions (and reciprocal-multiplication residues) live.
+pub fn near_tie_coeff(r: &mut Rng) -> (u128, u32) {
+    let k = 1 + r.below(33) as u32;                 // digits to be dropped
+    let keep_digits = 1 + r.below((34 - k) as u64) as u32;
+    let kept = match r.below(5) { 0 => 0, 1 => pow10(keep_digits) - 1, 2 => pow10(keep_digits - 1), _ => coeff(r, keep_digits) };
+    let kept = if r.chance(1, 2) { kept | 1 } else { kept & !1u128 };
+    let half = 5 * pow10(k - 1);
+    let unit = pow10(k);
+    let delta: i128 = match r.below(10) {
+        0 => 0,
+        1 => 1, 2 => -1,
+        3 => r.range(1, 100_000) as i128,
+        4 => -(r.range(1, 100_000) as i128),
+        5 => -(half as i128),                       // exact
+        6 => half as i128 - 1,                      // ...999
+        7 => -(half as i128) + 1,                   // ...001
+        8 => (r.u128() % (half.max(2) as u128)) as i128,
+        _ => -((r.u128() % (half.max(2) as u128)) as i128),
+    };
+    let tail = (half as i128 + delta).clamp(0, unit as i128 - 1) as u128;
+    ((kept * unit + tail).min(P34 - 1), k)
+}
+
+/// fma triples where the product sits at a chosen fraction of the ulp of the (34-digit normalised) addend.
+pub fn fma_tail_triple(r: &mut Rng) -> (u128, u128, u128) {
+    let q3 = qdigits(r);
+    let c3 = coeff(r, q3);
+    let e3 = match r.below(4) { 0 => -6143 - q3 as i32 + 1 + r.range(-2, 36) as i32, 1 => EMAX - r.below(40) as i32, _ => exponent(r) };
+    let e3 = e3.clamp(EMIN, EMAX);
+    let u = (e3 + q3 as i32 - 34).max(EMIN);           // exponent of one ulp of the normalised addend
+    let k = 1 + r.below(20) as u32;                    // digits of the tail pattern
+    let t: u128 = match r.below(9) {
+        0 => 5 * pow10(k - 1), 1 => 5 * pow10(k - 1) + 1, 2 => 5 * pow10(k - 1) - 1, 3 => pow10(k) - 1, 4 => 1,
+        5 => pow10(k - 1), 6 => 6 * pow10(k - 1), 7 => 15 * pow10(k - 1), _ => coeff(r, k),
+    }.max(1);
+    // product = t·10^(u-k)·10^j with j ∈ {0, 1, -1}: below, at, or above one ulp
+    let pe = u - k as i32 + *r.pick(&[0i32, 0, 0, 1, -1, 2]);
+    let (tx, ty) = if t % 5 == 0 && r.chance(1, 2) { (5u128, t / 5) } else if t % 2 == 0 && r.chance(1, 2) { (2u128, t / 2) } else { (t, 1u128) };
+    let ex = (pe / 2).clamp(EMIN, EMAX);
+    let ey = (pe - ex).clamp(EMIN, EMAX);
+    (enc(r.chance(1, 2), tx.min(P34 - 1), ex), enc(r.chance(1, 2), ty.min(P34 - 1).max(1), ey), enc(r.chance(1, 2), c3, e3))
+}
+
 pub fn any_int(r: &mut Rng, lo: i128, hi: i128) -> i128 {
     match r.below(6) {
         0 => lo, 1 => hi, 2 => 0,
@@ -444,6 +503,13 @@ pub fn literal(r: &mut Rng) -> String {
         _ => 1 + r.below(45) as usize,
     };
     let mut ds = digits(r, total);
+    if r.chance(1, 3) {
+        // digits of a shaped coefficient (carry boundaries, 2-adic shapes, powers of ten …), extended when longer than 34
+        let q = total.min(34) as u32;
+        let mut t = coeff(r, q).to_string();
+        if total > 34 { t.push_str(&digits(r, total - 34)); }
+        ds = t;
+    }
     if r.chance(1, 3) && total > 34 {
         // put a tie / near-tie pattern after the 34th digit
         let tail = match r.below(4) { 0 => "5", 1 => "50000", 2 => "49999", _ => "50001" };
